@@ -170,9 +170,17 @@ impl Transform {
         };
 
         // Check if the program is runnable, fail fast if it is not.
-        match Command::new(&program).spawn() {
+        // The probe must not inherit the standard streams: a program that reads its input would
+        // consume the list of paths given with --stdin, and its output would end up in the report.
+        match Command::new(&program)
+            .stdin(Stdio::null())
+            .stdout(Stdio::null())
+            .stderr(Stdio::null())
+            .spawn()
+        {
             Ok(mut child) => {
                 let _ignore = child.kill();
+                let _ignore = child.wait();
             }
             Err(e) => {
                 return Err(io::Error::new(
